@@ -419,6 +419,12 @@ class Effects:
                 if any(is_write_mode(m) or m == '?w' for m in ms) and n.args:
                     effects.append(Effect('open-write', self.prov(n.args[0], env, f, ctx), guards, f, n))
                 return
+            if name == 'os.open' and n.args:
+                # the low-level open: a write when its flags ask for writing or creation (or cannot be read)
+                fl = ast.unparse(n.args[1]) if len(n.args) > 1 else ''
+                if not fl or any(w in fl for w in ('O_WRONLY', 'O_RDWR', 'O_CREAT', 'O_TRUNC', 'O_APPEND')) or 'O_RDONLY' not in fl:
+                    effects.append(Effect('open-write', self.prov(n.args[0], env, f, ctx), guards, f, n))
+                return
             if name in WRITE_FUNCS:
                 for i in WRITE_FUNCS[name]:
                     if i < len(n.args):
